@@ -77,3 +77,16 @@ Qed.
 (* a text and its lower-cased form are the same text; so are the two spellings of a name that differ in letter case only *)
 Theorem same_text_lowercase a : same_text_m a (lower_str a) = true.
 Proof. unfold same_text_m. rewrite lower_str_idem. apply leqb_refl. Qed.
+
+(* upper-casing is idempotent too (finite sweep over the regenerated table, lifted to every text) *)
+Definition stable_upper (kv : N * list N) : bool := leqb (flat_map u_upper (snd kv)) (snd kv).
+Lemma upper_tab_stable : forallb stable_upper upper_tab = true.
+Proof. vm_compute. reflexivity. Qed.
+Lemma u_upper_idem c : flat_map u_upper (u_upper c) = u_upper c.
+Proof.
+  unfold u_upper at 2 3. destruct (assoc_sorted c upper_tab) as [v|] eqn:E.
+  - apply assoc_sorted_in in E. pose proof (proj1 (forallb_forall _ _) upper_tab_stable _ E) as S. unfold stable_upper in S. cbn [snd] in S. apply leqb_eq in S. exact S.
+  - cbn [flat_map]. rewrite app_nil_r. unfold u_upper. rewrite E. reflexivity.
+Qed.
+Theorem upper_str_idem s : upper_str (upper_str s) = upper_str s.
+Proof. unfold upper_str. induction s as [|c r IH]; [reflexivity|]. cbn [flat_map]. rewrite flat_map_app, IH, u_upper_idem. reflexivity. Qed.
